@@ -119,6 +119,15 @@ mut("c08-empty-union-crash-reintroduced", G, "            if Unknown in types an
 mut("c08-union-dedup-removed", CX, "                if h not in hashes:\n                    unique_types.append(t)", "                if True:\n                    unique_types.append(t)", ["C08"])
 mut("c08-single-member-union-kept", G, "            if len(meta_type.types) == 1:\n                meta_type = meta_type.types[0]\n\n            if optional:", "            if optional:", ["C08"])
 mut("c08-str-kept-next-to-pseudo", G, "        if str in str_types:\n            other_types.append(str)\n        elif str_types:", "        if str in str_types:\n            other_types.append(str)\n        if str_types and set(str_types) != {str}:\n            str_types = [t for t in str_types if t is not str]", ["C08"])
+# ---- C09 ----------------------------------------------------------------------------------------------
+mut("c09-detection-order-reversed", G, "            for t in self.str_types_registry:\n                try:", "            for t in reversed(list(self.str_types_registry)):\n                try:", ["C09"])
+mut("c09-resolve-returns-replaced", SS, "                    replaced.add(t1)", "                    replaced.add(t2)", ["C09"])
+mut("c09-remove-by-substring", SS, "            if cls.__name__ == name or cls.actual_type.__name__ == name:", "            if name in cls.__name__ or cls.actual_type.__name__ == name:", ["C09"])
+mut("c09-float-repr-lossy", SS, "class FloatString(StringSerializable, float):\n    actual_type = float\n\n    @classmethod\n    def to_internal_value(cls, value: str) -> 'FloatString':\n        return cls(value)\n\n    def to_representation(self) -> str:\n        return str(self)",
+    "class FloatString(StringSerializable, float):\n    actual_type = float\n\n    @classmethod\n    def to_internal_value(cls, value: str) -> 'FloatString':\n        return cls(value)\n\n    def to_representation(self) -> str:\n        return '%g' % self", ["C09"])
+mut("c09-time-repr-drops-fraction", SD, "class IsoTimeString(StringSerializable, time):", "class IsoTimeString(StringSerializable, time):\n    def isoformat(self, *a):\n        return time.strftime(self, '%H:%M:%S')\n", ["C09"])
+mut("c09-detect-swallow-all", G, "                except ValueError:\n                    continue\n                return t", "                except ValueError:\n                    continue\n                except Exception:\n                    pass\n                return t", ["C09"], kind="neutral")
+mut("c09-bool-detected-before-parse", G, "            for t in self.str_types_registry:\n                try:\n                    value = t.to_internal_value(value)", "            for t in self.str_types_registry:\n                try:\n                    if t.__name__ == 'BooleanString' and value.strip().lower() in ('true', 'false'):\n                        return t\n                    value = t.to_internal_value(value)", ["C09"])
 # ---- neutral (behaviour preserving) -------------------------------------------------------------------
 mut("neutral-rename-local", G, "        fields_sets = [self._convert(data) for data in data_variants]\n        fields = self.merge_field_sets(fields_sets)",
     "        variants = [self._convert(data) for data in data_variants]\n        fields = self.merge_field_sets(variants)", ["C01", "C02", "C05"], kind="neutral")
